@@ -233,6 +233,7 @@ def judge(cfg, events, results, props=None):
             depth_before = phys.depth()
             xy_before = (phys.pos["X"], phys.pos["Y"])
             n_fw_phys = len(phys.fwlog)
+            hw_before = phys.hw
             info = phys.execute(o)
             for (c_fw, t_fw) in phys.fwlog[n_fw_phys:]:
                 # "carry the original parameters": a forwarded G10 repeats the parameters of the file's
@@ -256,6 +257,11 @@ def judge(cfg, events, results, props=None):
                     viol("C01", i, "forwarded %r moves %s inside an episode" % (o, sorted(info["moved"])))
                 if info["de"] > TOL:
                     viol("C01", i, "forwarded %r pushes %g of filament inside an episode" % (o, info["de"]))
+            if not (ev[0] == "g" and o == ev[1]) and phys.hw - hw_before > DTOL and virt.eabs:
+                # only the file's own extruding commands deposit filament: a synthesised recovery ends
+                # exactly where the retraction began
+                viol("C04", i, "synthesised %r deposits %g of filament; the file specifies none for it"
+                     % (o, phys.hw - hw_before))
             if ("X" in info["moved"] or "Y" in info["moved"]) and z_at_xy is None:
                 z_at_xy = phys.pos["Z"]
             if ev[0] == "g" and o == ev[1] and ocode in ("G0", "G1", "G2", "G3"):
